@@ -325,9 +325,11 @@ def parse_mdcrd(path, n_atoms, has_box):
     ex = dict(n_frames=nf, n_atoms=n_atoms, box_tokens=Ltok, box_fixed_columns=Lfix)
     lengths = None
     if has_box:
-        if any(x is None for x in Ltok):
-            raise LayoutError("mdcrd-box-line", "box line does not hold three numbers")
-        lengths = np.array(Ltok, dtype=np.float64)
+        # whitespace tokens where the line has separators (what VMD / mdtraj write and read), else the FORMAT(3F8.3) columns
+        best = [t if t is not None else f for t, f in zip(Ltok, Lfix)]
+        if any(x is None for x in best):
+            raise LayoutError("mdcrd-box-line", "box line holds three numbers neither as tokens nor as 3F8.3 columns")
+        lengths = np.array(best, dtype=np.float64)
     return _result(xyz=np.array(X), lunit="angstroms", lengths=lengths, angles=None if lengths is None else np.full_like(lengths, 90.0),
                    extra=ex)
 
